@@ -373,7 +373,9 @@ pub fn fault_catalogue() -> Vec<(&'static str, fn(u32) -> Fault)> {
         ("read-eio-0", |k| Fault::ReadErr { proc: k, nth: 0, errno: 5 }),
         ("read-eio-1", |k| Fault::ReadErr { proc: k, nth: 1, errno: 5 }),
         ("wait-echild", |k| Fault::Wait { proc: k, errno: 10 }),
-        ("state-dir-enospc", |_| Fault::Fs { site: "exec:state-dir".into(), nth: 0, errno: 28 }),
+        ("state-dir-enospc", |k| Fault::Fs { site: "exec:state-dir".into(), nth: k % 3, errno: 28 }),
+        ("document-dir-eacces", |k| Fault::Fs { site: "env:document-dir".into(), nth: k % 3, errno: 13 }),
+        ("detached-stdin-enospc", |k| Fault::Fs { site: "exec:detached-stdin".into(), nth: k % 2, errno: 28 }),
     ]
 }
 
